@@ -45,22 +45,24 @@ def replay(r):
                 return True, "characters(one_hot_encode(%r)) = %r, expected %r" % (s, back, want)
         return False, "ok"
     if k == "rc":
-        chars = r["chars"]    # codes 0..3, -1 = N
-        s = "".join("ACGT"[c] if c >= 0 else "N" for c in chars)
+        chars = r["chars"]    # codes index the complement map's keys, -1 = N (unknown)
+        cmap = dict(r.get("cmap") or [["A", "T"], ["C", "G"], ["G", "C"], ["T", "A"]])
+        keys = list(cmap.keys())
+        s = "".join(keys[c] if c >= 0 else "N" for c in chars)
         try:
-            rc = utils.reverse_complement(s)
-            utils.reverse_complement(rc)
+            rc = utils.reverse_complement(s, complement_map=cmap)
+            rr = utils.reverse_complement(rc, complement_map=cmap)
         except ValueError as e:
             return True, "string reverse_complement raised on %r: %s" % (s, e)
-        if utils.reverse_complement(rc) != s:
-            return True, "string reverse_complement is not an involution on %r" % s
-        X = C.real_onehot([chars], 4)[0]
-        Xrc = utils.reverse_complement(X)
-        if not torch.equal(utils.reverse_complement(Xrc), X):
+        if rr != s:
+            return True, "string reverse_complement is not an involution on %r (map %s): %r" % (s, cmap, rr)
+        X = C.real_onehot([chars], len(keys))[0]
+        Xrc = utils.reverse_complement(X, complement_map=cmap)
+        if not torch.equal(utils.reverse_complement(Xrc, complement_map=cmap), X):
             return True, "tensor reverse_complement is not an involution"
-        want = utils.one_hot_encode(rc)
+        want = utils.one_hot_encode(rc, alphabet=keys, ignore=[] if "N" in keys else ["N"])
         if not torch.equal(Xrc.type(torch.int8), want.type(torch.int8)):
-            return True, "tensor and string reverse complements disagree on %r" % s
+            return True, "tensor and string reverse complements disagree on %r (map %s): string gives %r" % (s, cmap, rc)
         return False, "ok"
     if k == "chunk":
         size, overlap, lengths, Cn = r["size"], r["overlap"], r["lengths"], r["channels"]
@@ -140,39 +142,60 @@ def worker(cfg):
             return "returned"
         if kind == "rc":
             n = cfg["n"]
-            ch = C.sym_chars(ctx, "s", (n,), 4, lo=-1)
+            cmap = dict(cfg.get("cmap") or [["A", "T"], ["C", "G"], ["G", "C"], ["T", "A"]])
+            keys = list(cmap.keys())
+            K = len(keys)
+            n_ok = "N" not in keys
+            ch = C.sym_chars(ctx, "s", (n,), K, lo=-1 if n_ok else 0)
             rp = lambda m: dict(cfg, chars=C.eval_chars(m, ch))
-            X = C.onehot_from_chars(ch.reshape(1, n), 4)[0]
-            Xrc = utils.reverse_complement(X)
-            Xrr = utils.reverse_complement(Xrc)
-            cl = [Xrr.shape == X.shape]
-            cl += [Xrr.a[c] == X.a[c] for c in np.ndindex(*X.shape)]
-            # string spec of the reverse complement: position p holds complement of char n-1-p
-            comp = {0: 3, 1: 2, 2: 1, 3: 0}
-            for p in range(n):
-                src = ch[n - 1 - p]
-                for k in range(4):
-                    cl.append(Xrc.a[k, p] == ite(src == comp[k], 1, 0))
+            X = C.onehot_from_chars(ch.reshape(1, n), K)[0]
+            comp = {i: keys.index(cmap[k_]) for i, k_ in enumerate(keys)}
+            try:
+                Xrc = utils.reverse_complement(X, complement_map=cmap)
+                Xrr = utils.reverse_complement(Xrc, complement_map=cmap)
+            except Exception as e:
+                if isinstance(e, core.Inconclusive):
+                    raise
+                m = ctx.model() if ctx.check() == z3.sat else None
+                add("reverse_complement:tensor-raises", "tensor reverse_complement raised: %s" % e, rp(m))
+                return "raised"
+            cl = [Xrr.shape == X.shape, Xrc.shape == X.shape]
+            if Xrr.shape == X.shape and Xrc.shape == X.shape:
+                cl += [Xrr.a[c] == X.a[c] for c in np.ndindex(*X.shape)]
+                # string spec of the reverse complement: position p holds the complement of char n-1-p
+                for p in range(n):
+                    src = ch[n - 1 - p]
+                    for k in range(K):
+                        cl.append(Xrc.a[k, p] == ite(src == [i for i in range(K) if comp[i] == k][0], 1, 0))
             m = ctx.prove(s_and(*cl), "tensor reverse complement")
             if m is not None:
                 add("reverse_complement:tensor", "tensor reverse_complement is not the involutive complement-reverse", rp(m))
                 return "returned"
             # string form on the same (now concretised) characters
-            codes = [ite(c == 0, ord("A"), ite(c == 1, ord("C"), ite(c == 2, ord("G"), ite(c == 3, ord("T"), ord("N"))))) for c in ch]
+            codes = []
+            for c in ch:
+                r_ = ord("N") if n_ok else ord(keys[-1])
+                for i in range(K - 1, -1, -1):
+                    r_ = ite(c == i, ord(keys[i]), r_)
+                codes.append(r_)
             s = SymStr(codes)
             try:
-                rc = utils.reverse_complement(s)
-                rr = utils.reverse_complement(rc)
+                rc = utils.reverse_complement(s, complement_map=cmap)
+                rr = utils.reverse_complement(rc, complement_map=cmap)
             except ValueError as e:
                 m = ctx.model() if ctx.check() == z3.sat else None
                 add("reverse_complement:string-raises", "string reverse_complement raised: %s" % e, rp(m))
                 return "returned"
             cl = [len(rc) == n, len(rr) == n]
-            cmap = {"A": 0, "C": 1, "G": 2, "T": 3, "N": -1}
+            code_of = {k_: i for i, k_ in enumerate(keys)}
+            if n_ok:
+                code_of["N"] = -1
             for p in range(min(n, len(rc), len(rr))):
-                cl.append(ch[p] == cmap.get(rr[p], -9))
-                k = cmap.get(rc[p], -9)
-                cl.append(ch[n - 1 - p] == (comp[k] if k >= 0 else k))
+                cl.append(ch[p] == code_of.get(rr[p], -9))
+                k = code_of.get(rc[p], -9)
+                # rc[p] must be the complement of the character at n-1-p
+                inv = {comp[i]: i for i in comp}
+                cl.append(ch[n - 1 - p] == (inv[k] if k >= 0 else k))
             m = ctx.prove(s_and(*cl), "string reverse complement agrees")
             if m is not None:
                 add("reverse_complement:string", "string reverse_complement disagrees with the tensor form / is not an involution", rp(m))
@@ -235,6 +258,12 @@ def configs(tier):
             cf.append(dict(kind="roundtrip", alphabet=a, ignore=ig, n=n))
     for n in range(1, (4 if tier == "quick" else 6)):
         cf.append(dict(kind="rc", n=n))
+    maps = [[["A", "T"], ["T", "A"]], [["M", "N"], ["N", "M"]], [["A", "C"], ["C", "A"], ["N", "N"]]]
+    if tier == "thorough":
+        maps.append([["A", "T"], ["C", "G"], ["G", "C"], ["T", "A"], ["X", "Y"], ["Y", "X"]])
+    for cm in maps:
+        for n in range(1, (4 if tier == "quick" else 5)):
+            cf.append(dict(kind="rc", n=n, cmap=cm))
     ls = [[4], [5, 7], [8, 3, 6], [6, 6]] if tier == "quick" else [[4], [5, 7], [8, 3, 6], [6, 6], [12], [9, 10, 4], [7, 12, 5, 5]]
     for lengths in ls:
         for Cn in (1, 2):
@@ -305,5 +334,5 @@ def main(tier, seed):
                        "chunk with zero complete chunks (size > length) outside the claim"]
     rep.absorb(harness.run_configs("checks.C15", "worker", cf))
     rep.witness_ok = rep.stats["returned"] > 0 and rep.stats["raised"] > 0
-    rep.validated += validate_model()
+    rep.run_validation(validate_model)
     return harness.finish(rep)
